@@ -4,6 +4,7 @@ from ..unit import run_unit
 from .. import camp_props
 from ..units.loop import Loop
 from ..units.stepctl import StepCtl
+from ..units.pictl import PICtl
 
 PROP_FILES = ["props/C15.v"]
 TECHNIQUE = "Coq proof (invariants by induction over arbitrary step-oracle traces) + exact differential correspondence of Solver.solve with a scripted step oracle and virtual clock"
@@ -11,6 +12,6 @@ TECHNIQUE = "Coq proof (invariants by induction over arbitrary step-oracle trace
 
 def run(rep, tier, seed, scratch):
     g = Gen(seed)
-    for u in (StepCtl(), Loop()):
+    for u in (StepCtl(), Loop(), PICtl()):
         run_unit(rep, u, u.gen(g, tier), scratch)
     camp_props.run_single(rep, 'C15', tier, seed, 30, 250, allow={'step_control_type': ['Exact', 'Exact', 'DistanceRatio', 'ResiduumRatio', 'Fixed'], 'iteration_limit': 60})
